@@ -1017,6 +1017,17 @@ class Model:
                         other_state, alg_state = alg_state, other_state
 
                 if alg_state is not None:
+                    # If the two states are already related (possibly via other
+                    # aliases), there is no variable left to eliminate with this
+                    # equation. In particular "a = b" together with "a = -b"
+                    # must not relate a variable to its own negation. Keep the
+                    # equation.
+                    if (
+                        self.alias_relation.canonical_signed(alg_state.name())[0]
+                        == self.alias_relation.canonical_signed(other_state.name())[0]
+                    ):
+                        return False
+
                     # If either state is a derivative state, and aliasing of those
                     # is not allowed, skip aliasing them
                     if not options["allow_derivative_aliases"] and (
